@@ -56,7 +56,10 @@ func (n *RestPatternNode) String() string {
 	var buff strings.Builder
 
 	buff.WriteRune('*')
-	buff.WriteString(n.Identifier.String())
+	// an anonymous rest pattern `*` has no identifier
+	if n.Identifier != nil {
+		buff.WriteString(n.Identifier.String())
+	}
 
 	return buff.String()
 }
